@@ -1,19 +1,46 @@
-META = {"assumptions": [], "outside": []}
+META = {
+    "assumptions": [
+        "allocation failure out of scope (--no-malloc-may-fail); ext2fs_get_memzero/ext2fs_get_arrayzero as called from the encoded "
+        "file are recording stubs (macro substitution in the harness), init_l1_table/init_l2_cache cut (allocation only)",
+        "ext2fs_llseek/read/write are byte-array file models; reads deliver any non-empty part of a request",
+        "filesystems of 1..2^32 blocks, block size 1k/2k/4k/64k (cluster_bits 10/11/12/16), little-endian host",
+        "l2item: free L2 tables are zeroed (established by init_l2_cache/put_used_table), 4 L1 slots, cache of one used + one free table "
+        "(flush_l2_cache not reached)",
+    ],
+    "outside": [
+        "which blocks count as metadata: mark_table_blocks, process_dir_block, process_file_block, write_raw_image_file (the substance of C19)",
+        "the raw writer output_meta_data_blocks (sparse skipping, -ra, move mode), scramble, install_image",
+        "output_qcow2_meta_data_blocks' sequencing of update_refcount/add_l2_item/generic_write, flush_l2_cache ordering and file offsets, "
+        "update_refcount/sync_refcount themselves (only the capacity they index into is checked)",
+        "qcow2_write_raw_image's table walk (L1/L2 loop, offset > image_size skip, final size extension) beyond header validation and copy_data",
+        "source filesystem never modified (C13), e2fsck/dumpe2fs equality on the image",
+    ],
+}
 CUT = {"misc/e2image.c": ["init_l1_table", "init_l2_cache"]}
 HARNESSES = [
     dict(name="read_header", src="rawconv.c", funcs=["qcow2_read_header"], configs=[{"KERNEL": 1}],
-         unwind=4, unwindset=["main.%d:73" % i for i in range(6)] + ["read.0:73", "ref_be.0:9"], backends=["default", "kissat"], bound="x"),
+         unwind=4, unwindset=["main.%d:73" % i for i in range(6)] + ["read.0:73", "ref_be.0:9"], backends=["default", "kissat"], bound="all 72 header bytes, complete or short read"),
     dict(name="raw_validate", src="rawconv.c", funcs=["qcow2_write_raw_image"], configs=[{"KERNEL": 2}, {"KERNEL": 2, "WRITER_STYLE": None}],
-         unwind=4, unwindset=["main.%d:73" % i for i in range(6)] + ["ref_be.0:9"], backends=["default", "kissat", "z3"], bound="x"),
+         unwind=4, unwindset=["main.%d:73" % i for i in range(6)] + ["ref_be.0:9"], backends=["default", "kissat", "z3"], bound="all 72 header bytes; WRITER_STYLE: headers as e2image writes them for 1..2^32 blocks, cluster_bits 10..16"),
     dict(name="copy_data", src="rawconv.c", funcs=["qcow2_copy_data"], configs=[{"KERNEL": 3}, {"KERNEL": 3, "PARTIAL_WRITE": None}],
          unwind=6, unwindset=["main.%d:9" % i for i in range(6)] + ["read.0:9", "read.1:9", "write.0:9", "write.1:9", "qcow2_copy_data.0:6", "qcow2_copy_data.1:6"],
-         backends=["default", "kissat"], bound="x"),
+         backends=["default", "kissat"], bound="8-byte model files, 4-byte cluster, any source/destination offset, reads (and with PARTIAL_WRITE writes) of 1..4 bytes"),
     dict(name="l2item", src="l2item.c", funcs=["add_l2_item", "get_free_table"],
          configs=[{"CB": 10}, {"CB": 7}], unwind=4, unwindset=["main.%d:130" % i for i in range(10)] + ["ref_be64.0:9"],
-         backends=["default", "kissat"], bound="x"),
+         backends=["default", "kissat"], bound="cluster_bits 10 (128-entry L2 tables; 7 = scaled, 16 entries), 4 L1 slots, any block, any table content and offsets < 2^62"),
     dict(name="geom", src="geom.c", funcs=["initialize_qcow2_image", "init_refcount", "align_offset", "get_bits_from_size"],
          cut_statics=CUT, extra_src=["lib/ext2fs/blknum.c"],
          configs=[{"CB": cb} for cb in (10, 11, 12, 16)] + [{"CB": 10, "CHECK_CAPACITY": 1, "MAXLOG": 17}] + [{"CB": cb, "CHECK_CAPACITY": k} for k in (1, 2) for cb in (10, 11, 12, 16)],
-         unwind=4, unwindset=["get_bits_from_size.0:18", "ref_be.0:9"], backends=["default", "kissat", "z3"], bound="x"),
+         unwind=4, unwindset=["get_bits_from_size.0:18", "ref_be.0:9"], backends=["default", "kissat", "z3"],
+         bound="1..2^32 blocks (MAXLOG=17: <= 131072), 0..blocks imaged blocks, cluster_bits 10/11/12/16"),
 ]
-MANIFEST = {"text": "x", "note": "x"}
+MANIFEST = {
+    "text": "Sizing and index arithmetic of the qcow2 writer and reader only: header fields, L1 size, region order/alignment and "
+            "refcount-table capacity of initialize_qcow2_image/init_refcount for every filesystem size; add_l2_item's slot "
+            "against the format's (and the reader's) index formula; header acceptance of qcow2_read_header and "
+            "qcow2_write_raw_image; byte placement of qcow2_copy_data. Which blocks are imaged, the writers' sequencing and the "
+            "reader's table walk are outside.",
+    "note": "Trusted: CBMC's C semantics, recording allocation stubs, byte-array file models, the harness's restatement of the "
+            "qcow2 format. Failing on the unchanged tree: geom CB=10 CHECK_CAPACITY (refcount table too small for 1 KiB-block "
+            "images near 64 MiB, unchecked index in update_refcount) and copy_data PARTIAL_WRITE (retry writes c1 instead of c bytes).",
+}
